@@ -14,6 +14,9 @@ use vcore::{enumerate as en, Check, Stats};
 const SIGMA_STR: &[&str] = &["\"", "\\", "u", "0", "8", "D", "F", "n", "x", "a", "é", "\n"];
 const SIGMA_BLK: &[&str] = &["\"", "\\", " ", "\t", "\n", "\r", "a", "é", "\u{feff}"];
 /// every single-character escape of the grammar (Σstr only has `\"`, `\\`, `\n`, `\u`), plus `\uXXXX`
+/// block-string bodies with characters that are white space / line breaks for Unicode but ordinary
+/// SourceCharacters for GraphQL (BlockStringValue() only knows space, tab, LF, CR)
+const SIGMA_BLK_U: &[&str] = &[" ", "\n", "a", "\u{a0}", "\u{c}", "\u{b}", "\u{3000}", "\u{2028}", "\u{85}"];
 const SIGMA_ESC: &[&str] = &["\\", "\"", "/", "b", "f", "n", "r", "t", "u", "0", "A"];
 
 /// What one observation site returned.
@@ -216,7 +219,8 @@ fn main() {
         chk.absorb(st);
         chk.finish_replay();
     }
-    let spaces: [(&str, &'static [&'static str], &str, u32, u32); 3] = [
+    let spaces: [(&str, &'static [&'static str], &str, u32, u32); 4] = [
+        ("block-unicode-space", SIGMA_BLK_U, "\"\"\"", 6, 7),
         ("quoted", SIGMA_STR, "\"", 6, 7),
         ("quoted-escapes", SIGMA_ESC, "\"", 5, 7),
         ("block", SIGMA_BLK, "\"\"\"", 6, 8),
